@@ -261,6 +261,27 @@ def bool_atoms(fl):
     return out
 
 
+def implied_tests(fl, bb, succ):
+    """[(test description, truth)] that must hold when the switch at `bb` on a NAMED boolean goes to `succ`
+    (`let ok = has(a) && has(b); if !ok { return Err }`: on the `ok` edge both has(a) and has(b) are true)"""
+    b = fl.b
+    out = []
+    for (a, s) in b.implied_edges(bb, succ):
+        at = fl.atom(a)
+        if not at or at["ty"] != "bool":
+            continue
+        test = at["test"]
+        neg = False
+        while isinstance(test, tuple) and test[0] == "unop" and test[1] == "Not":
+            neg = not neg
+            test = test[2]
+        truth = (s == at["otherwise"])
+        if neg:
+            truth = not truth
+        out.append((norm(test), truth))
+    return out
+
+
 def discr_atoms(fl):
     """[(bb, tested description, {variant_index: succ}, otherwise)] for enum-discriminant switches"""
     out = []
